@@ -233,7 +233,7 @@ class Gen:
                 for d in self.defenses_of(t):
                     if r.random() < 0.4: defs.append([d, repr(r.choice([0.0, 1.0, 0.5, 0.25, -0.1, 1.0001, 1.0, 0.0] + ([float('nan'), float('inf')] if self.odd_defenses else [])))])
                 ok = all(0.0 <= float(v) <= 1.0 for _, v in defs)
-                extras = '{}' if r.random() < 0.8 or not self.with_extras else jtxt({'color': r.choice(['red', 'gr\u00fcn', 'bl\U0001F535']), 'n': r.randint(0, 3), 'w': r.choice([0.5, 1e-07, 1e+22, 3])})
+                extras = '{}' if r.random() < 0.8 or not self.with_extras else jtxt({'color': r.choice(['red', 'gr\u00fcn', 'bl\U0001F535']), 'n': r.randint(0, 3), 'w': r.choice([0.5, 1e-07, 1e+22, 3]), **({r.choice(['2024', '7', '007', '-1']): {'42': r.randint(0, 2)}} if r.random() < 0.3 else {})})
                 allow = r.random() < 0.8
                 self.ops.append({'k': 'add_asset', 'type': t, 'name': name, 'defenses': defs, 'defsOk': ok, 'extras': extras,
                                  'id': aid, 'allowDup': allow})
